@@ -501,7 +501,7 @@ def check_string_length(value, name=None, min_length=0, max_length=None):
                                       'min_length': min_length}
         raise ValueError(msg)
 
-    if max_length and length > max_length:
+    if max_length is not None and length > max_length:
         msg = _("%(name)s has %(length)s characters, more than "
                 "%(max_length)s.") % {'name': name, 'length': length,
                                       'max_length': max_length}
